@@ -1277,6 +1277,10 @@ pub(crate) fn check_spec_reserved_keys(key: &[u8], mut value: &[u8]) -> Result<(
             #[cfg(not(any(feature = "k256", feature = "rust-secp256k1")))]
             let _ = public_key;
         }
+        b"ed25519" => {
+            // the decoder requires a byte string here
+            Bytes::decode(&mut value)?;
+        }
         _ => return Ok(()),
     };
     Ok(())
